@@ -159,6 +159,55 @@ func d9() (bool, string) {
 	return true, fmt.Sprintf("a transaction listing the same output twice and paying out %d from a single %d output was admitted to the pool", 2*s.Genesis-2*s.MinFee, s.Genesis)
 }
 
+// ---- D3: honest block with a yielding output to an address removed by the previous block is rejected
+// by a peer that holds the same chain plus its own competing tip
+func d3() (bool, string) {
+	s := settings()
+	w0, w1, w2 := node.NewWallet(0), node.NewWallet(1), node.NewWallet(2)
+	a, gid := boot("a", s, w0, 1)
+	at := func(k int) int64 { return T0 + int64(k)*s.Interval }
+	tx1, _, err := node.MakeTx([]node.Spend{{gid, 0, w0}}, []node.RawOutput{{w1.Address, true, 1_000_000}, {w0.Address, false, 8_000_000}}, at(1))
+	if err != nil {
+		return false, err.Error()
+	}
+	a.Pool.AddTransaction(tx1, "", "")
+	a.Pool.Validate(at(2)) // block 2: tx1, registers w1
+	a.Pool.Validate(at(3)) // block 3: block 2 confirmed
+	if !a.Reg.IsRegistered(w1.Address) {
+		return false, "setup: w1 not registered"
+	}
+	a.Humans.Set([]string{w1.Address}, nil)
+	a.Reg.Synchronize(0)
+	a.Humans.Set(nil, nil)
+	a.Pool.Validate(at(4)) // block 4 lists w1 as removed
+	// peer g takes the chain up to block 4
+	g := node.New("g", s, w2.Address)
+	g.Pool.Validate(T0)
+	g.Senders.Set([]application.Sender{serve(a)})
+	g.Chain.Update(at(4))
+	if len(g.AllBlocks()) != 5 {
+		return false, fmt.Sprintf("setup: peer has %d blocks", len(g.AllBlocks()))
+	}
+	tx2, _, err := node.MakeTx([]node.Spend{{tx1.Id(), 0, w1}}, []node.RawOutput{{w1.Address, true, 900_000}}, at(4))
+	if err != nil {
+		return false, err.Error()
+	}
+	a.Pool.AddTransaction(tx2, "", "")
+	if len(a.Pool.Transactions()) != 1 {
+		return false, fmt.Sprintf("setup: tx2 not admitted: %v", tail(a.Log.Drain(), 2))
+	}
+	a.Pool.Validate(at(5)) // honest block 5 yields to w1, removed by block 4
+	g.Pool.Validate(at(5)) // the peer's own competing tip
+	g.Log.Drain()
+	g.Chain.Update(at(5))
+	for _, l := range g.Log.Drain() {
+		if strings.Contains(l, "failed to verify") && strings.Contains(l, "not registered") {
+			return true, "a peer holding the same chain plus its own tip refused the honest block: " + l
+		}
+	}
+	return false, "the honest block passed verification on the competing peer"
+}
+
 // ---- D4a: a chained block is mutated through the shared pending-removal slice
 func d4a() (bool, string) {
 	s := settings()
@@ -368,6 +417,7 @@ func d7() (bool, string) {
 
 var witnesses = []witness{
 	{"D1", "C01", "C01/fee-sum-wraps-uint64", d1, false},
+	{"D3", "C05", "C05/competitor-tip/yield-to-address-removed-by-previous-block", d3, false},
 	{"D9", "C11", "C11/same-output-twice-admitted", d9, false},
 	{"D2", "C05", "C05/producer-includes-spend-of-last-block-output", d2, false},
 	{"D4a", "C12", "C12/chained-block-mutated-through-shared-removal-slice", d4a, false},
